@@ -112,6 +112,9 @@ pub struct Plan {
     pub set: ModuleSet,
     pub cases: Vec<Case>,
     pub entropy: u64,
+    /// span of a second assignment to a name of the last module (see plan), if there is one
+    #[serde(default)]
+    pub dup_span: Option<(usize, usize)>,
 }
 
 /// the bytes no ASN.1 token can start with (C0 controls other than whitespace, and a few
@@ -257,8 +260,39 @@ impl Scenario for C17Corrupt {
         let small = idx % 3 == 0;
         cfg.assigns = if small { (1, 4) } else { (1, 30) };
         cfg.max_depth = if small { 1 } else { 3 };
-        let set = gen::generate(&mut w, &cfg);
+        let mut set = gen::generate(&mut w, &cfg);
+        // one source in six holds a SECOND assignment to a reference name of its last module
+        // (`Name ::= BOOLEAN`, somewhere behind the first). The compiler accepts that today (the
+        // later one wins). X.680 does not, so that second assignment may count as the first
+        // malformed one: damage behind it may be reported from there on, never in front of it
+        let mut dup_at: Option<(usize, usize)> = None; // (module, index of the second assignment)
+        {
+            let mut fd = root.fork("duplicate");
+            if fd.chance(1, 6) {
+                let mi = set.modules.len() - 1;
+                let m = &mut set.modules[mi];
+                let types: Vec<usize> = m.assigns.iter().enumerate().filter(|(_, a)| a.kind == gen::AKind::Type).map(|(i, _)| i).collect();
+                if !types.is_empty() {
+                    let first = *fd.pick(&types);
+                    let n = m.assigns[first].name.clone();
+                    let at = first + 1 + fd.below(m.assigns.len() - first);
+                    m.assigns.insert(at, gen::Assign { name: n.clone(), kind: gen::AKind::Type, text: format!("{n} ::= BOOLEAN"), refs: vec![], comment: String::new() });
+                    dup_at = Some((mi, at));
+                }
+            }
+        }
         let (text, units) = layout(&set);
+        // span of the second assignment: units are header, assignments.., END per module
+        let dup_span: Option<(usize, usize)> = dup_at.and_then(|(mi, ai)| {
+            let mut k = 0;
+            for (j, m) in set.modules.iter().enumerate() {
+                if j == mi {
+                    return units.get(k + 1 + ai).map(|u| (u.wide_start, u.end));
+                }
+                k += m.assigns.len() + 2;
+            }
+            None
+        });
         let map = gen::token_map(&text);
         let strict: Vec<usize> = (0..text.len()).filter(|i| map[*i] == ByteClass::Token && text.is_char_boundary(*i) && text.as_bytes()[*i] < 0x80).collect();
         let mut f = root.fork("faults");
@@ -422,6 +456,10 @@ impl Scenario for C17Corrupt {
                 c.pre = 1 + fp.below(3) as u8;
             }
         }
+        if let Some((ds, de)) = dup_span {
+            // no damage inside the second assignment itself
+            cases.retain(|c| !(c.c.at() >= ds && c.c.at() < de) && !matches!(c.c, Corruption::SectorZero { at } if at < de && at + 512 > ds) && !matches!(c.c, Corruption::BlankThenReplace { blank, .. } if blank >= ds && blank < de));
+        }
         // one case in twenty-five runs after a HISTORY of other compilations on the same thread,
         // most of them failing ones (nesting beyond what a parser may be willing to follow, errors
         // at end of input, comments and strings that never end), a few of them many times over
@@ -450,7 +488,7 @@ impl Scenario for C17Corrupt {
                 c.pre = 0;
             }
         }
-        serde_json::to_value(&Plan { seed, set, cases, entropy: root.fork("hashkeys").next_u64() }).unwrap()
+        serde_json::to_value(&Plan { seed, set, cases, entropy: root.fork("hashkeys").next_u64(), dup_span }).unwrap()
     }
 
     fn execute(&self, plan: &Value, _refs: &Value, root: &str, _env: &Env) -> Outcome {
@@ -610,6 +648,15 @@ impl Scenario for C17Corrupt {
             } else if r.context_start_offset <= ctext.len() && r.context_start_line != 1 + nl(r.context_start_offset) {
                 out.violate("line-arithmetic", format!("context_start_line {} but there are {} line breaks before context_start_offset {}; {ctx}", r.context_start_line, nl(r.context_start_offset), r.context_start_offset));
             }
+            // (a second assignment to a name IN FRONT of the damage may itself count as the first
+            // malformed unit: the lower bound is then its first token)
+            let lower = match p.dup_span {
+                Some((ds, de)) if de + shift <= pos => {
+                    out.count("probe.damage_behind_a_second_assignment_to_one_name", 1);
+                    units.iter().find(|u| u.wide_start == ds + shift).map_or(unit.start, |u| u.start.min(unit.start))
+                }
+                _ => unit.start,
+            };
             // 3. not before the malformed unit's first token, not after the first bad byte.
             //    s_k is the first non-blank byte after the previous unit (a leading comment
             //    counts as the first token or not, whichever the code chose).
@@ -630,8 +677,8 @@ impl Scenario for C17Corrupt {
                 out.violate("lenient-comma-then-damaged-default", format!("reported offset {} lies after offset {pos}, where a component starts without the comma in front of it; {ctx}", r.offset));
             } else if r.offset > pos {
                 out.violate("not-after-first-bad-byte", format!("reported offset {} lies after the first corrupted byte {pos}; {ctx}", r.offset));
-            } else if r.offset < unit.start && !matches!(case.c, Corruption::TruncateAtBoundary { .. }) {
-                out.violate("not-before-malformed-unit", format!("reported offset {} lies before the first token ({}) of the malformed {}; {ctx}", r.offset, unit.start, unit.kind));
+            } else if r.offset < lower && !matches!(case.c, Corruption::TruncateAtBoundary { .. }) {
+                out.violate("not-before-malformed-unit", format!("reported offset {} lies before the first token ({lower}) of the first malformed unit ({}{}); {ctx}", r.offset, unit.kind, if lower != unit.start { ", or rather the second assignment to one name in front of it" } else { "" }));
             }
             // 4. the three renderings agree on the line
             match (parse_display(&rend.display), parse_context(&rend.contextualized)) {
